@@ -21,6 +21,7 @@ import (
 	"strings"
 
 	"github.com/ipfs/go-cid"
+	format "github.com/ipfs/go-ipld-format"
 	"github.com/ipfs/go-merkledag"
 	carv1 "github.com/ipld/go-car"
 	carv2 "github.com/ipld/go-car/v2"
@@ -951,6 +952,37 @@ func (c *c15Case) runWriteCar() {
 	var buf bytes.Buffer
 	err := carv1.WriteCar(bg, g, rcids, lab.PlainWriter{W: &buf}, wopts...)
 	lg := log.take()
+	defer func() {
+		// the same walk through WriteCarWithWalker with a WalkFunc that refuses (returns an error for) some
+		// nodes and a walk that tolerates the refusal: a refused node was loaded by the traversal like any
+		// other, so it is in the output; only what lies below it may be missing
+		refuse := map[string]bool{}
+		rr := gen.Rand(c.d.Seed ^ 0x3a1c)
+		for _, n := range c.dag.nodes {
+			if rr.Intn(4) == 0 {
+				refuse[string(n.cid)] = true
+			}
+		}
+		if len(refuse) == 0 {
+			return
+		}
+		walk := func(nd format.Node) ([]*format.Link, error) {
+			if refuse[string(nd.Cid().Bytes())] {
+				return nil, fmt.Errorf("the links of this node are not to be followed")
+			}
+			return nd.Links(), nil
+		}
+		wapi := "root.WriteCarWithWalker(refusing)"
+		var wbuf bytes.Buffer
+		werr := carv1.WriteCarWithWalker(bg, g, rcids, lab.PlainWriter{W: &wbuf}, walk, append(append([]merkledag.WalkOption{}, wopts...), merkledag.IgnoreErrors())...)
+		wlg := log.take()
+		t.Cover("run:" + wapi)
+		if werr != nil {
+			t.ViolateD(wapi+"/"+linkOpt+"/unexpected-error", c.detail(wlg, map[string]any{"error": werr.Error()}), "%s with IgnoreErrors failed on a complete DAG: %v", wapi, werr)
+			return
+		}
+		c.checkPayload(wapi, linkOpt+"+"+c15WalkShape(wlg), wbuf.Bytes(), roots, wlg)
+	}()
 	c.selS = fmt.Sprintf("n/a (WriteCar walks all links of %d roots)", len(roots))
 	if err != nil {
 		t.ViolateD(api+"/"+linkOpt+"+"+c15WalkShape(lg)+"/unexpected-error", c.detail(lg, map[string]any{"error": err.Error()}), "%s failed on a complete DAG: %v", api, err)
@@ -1070,7 +1102,7 @@ func init() {
 	Register(&mon.Check{
 		ID:    "C15",
 		Level: "exploration",
-		Rule:  "cases = seeded (DAG, selector, v2 options, root-module options, link-budget placement); each case runs six writer paths (v2 NewSelectiveWriter+WriteTo, TraverseV1, TraverseToFile; root SelectiveCar.Write, Prepare+Dump, WriteCar) against a recording store; expected output = reference encoding of header + distinct CIDs of the writing traversal's load log in first-visit order; events_observed = logged block loads of successful runs; non-trivial = ≥ 2 blocks reachable from the root; distinct = distinct descriptor",
+		Rule:  "cases = seeded (DAG, selector, v2 options, root-module options, link-budget placement); each case runs six writer paths (v2 NewSelectiveWriter+WriteTo, TraverseV1, TraverseToFile; root SelectiveCar.Write, Prepare+Dump, WriteCar, and WriteCarWithWalker with a WalkFunc refusing a quarter of the nodes under merkledag.IgnoreErrors) against a recording store; expected output = reference encoding of header + distinct CIDs of the writing traversal's load log in first-visit order; events_observed = logged block loads of successful runs; non-trivial = ≥ 2 blocks reachable from the root; distinct = distinct descriptor",
 		Assumptions: []string{
 			"reference codec refcar decodes/encodes the outputs; CIDs of generated blocks are computed with refcar (stdlib hashes)",
 			"go-ipld-prime's walker and codecs are dependencies, not code under test; a reference walk is used only to place the link budget, never as an oracle",
